@@ -480,6 +480,15 @@ def mon_c10(run, case, stmts):
                 run.v("C10", "descendant_record_arrived_after_completion_record", f"{u['Type']}:{u['Action']}",
                       f"{b.path_of.get(u['Id'], u.get('Name'))}: {u['Action']} reached the backend (arrival #{e['n']}) after the completion record of its ancestor {b.path_of.get(a)} (arrival #{comp_n[a][0]}) in invocation {e['inv']}")
                 break
+    # ... and in later invocations: a context completed earlier is replayed from its record (or re-traversed without
+    # sending anything), so nothing at all arrives under it any more
+    for e in b.log:
+        u = e["upd"]
+        for a in chain(u):
+            if a in comp_n and comp_n[a][1] < e["inv"]:
+                run.v("C10", "record_under_context_completed_in_earlier_invocation", f"{u['Type']}:{u['Action']}",
+                      f"{b.path_of.get(u['Id'], u.get('Name'))}: {u['Action']} reached the backend in invocation {e['inv']} under {b.path_of.get(a)}, whose completion record arrived in invocation {comp_n[a][1]}")
+                break
     # user functions entered in an orphaned branch for an operation first encountered after the completion:
     # the operation's first hand-over of this invocation came after the ancestor's completion and was let through
     first_ho: dict = {}
